@@ -303,7 +303,7 @@ func init() {
 		Assumptions: []string{"source/SSA level only: instruction selection, memequal, MULQ latency and 32-bit math/bits fallbacks are outside the analysis", "the allow-listed library functions (math/bits Mul64/Add64/Sub64, binary.LittleEndian Uint64/PutUint64, subtle.ConstantTimeByteEq/ConstantTimeCompare) are constant time"},
 		TrustedBase: append([]string{"allow-list of external callees", "frozen exception table (validity decisions of decoders; the invariantly false high-bit assertion)"}, trustedCommon...),
 		Exceptions: []report.Exception{
-			{Key: "CT-BRANCH/(*Scalar).signedRadix16/Bytes()[31]>127", Reason: "invariantly false: every Scalar is < l < 2^253 (fiat post-condition 0 ≤ eval out1 < m), so the decision sequence is constant; internal assertion"},
+			{Key: `^CT-BRANCH/\(\*Scalar\)\.signedRadix16/.*\[31\]>127$`, Pattern: true, Reason: "invariantly false: every Scalar is < l < 2^253 (fiat post-condition 0 ≤ eval out1 < m), so byte 31 of its encoding is ≤ 0x10 and the decision sequence is constant — the interval run of RECODE (C01) decides this very comparison false; internal assertion"},
 			{Key: "CT-BRANCH/(*Point).SetBytes/SqrtRatio()#1==0", Reason: "validity decision of a decoder (exempt by the property)"},
 			{Key: "CT-BRANCH/isOnCurve/", Prefix: true, Reason: "isOnCurve is the validity predicate of the coordinate importer: validity decision of a decoder (exempt by the property); its only caller is SetExtendedCoordinates (asserted)"},
 			{Key: "CT-BRANCH/(*Point).SetExtendedCoordinates/isOnCurve()", Reason: "validity decision of a decoder (exempt by the property)"},
